@@ -173,6 +173,10 @@ class CallsMixin:
             try:
                 g = ev.bool(c.expr)
             except SpecError as ex:
+                if 'unknown identifier' in str(ex):
+                    # the clause names a variable that is not in scope at this call site: it is
+                    # about another call of the same callee (at least one site must evaluate it)
+                    continue
                 cx.stale(name, str(ex))
                 continue
             cx.callsites_seen.add((pat, c.label))
